@@ -22,11 +22,21 @@ type GlobalSpec struct {
 // assumeGlobals adds the facts about declared read-only globals to a path.
 func (e *Engine) assumeGlobals(st *State) {
 	for _, g := range e.Globals {
-		if g.Kind != "maplit" {
-			continue
-		}
 		sp := e.SSAPkgs[g.Pkg]
 		if sp == nil {
+			continue
+		}
+		if g.Kind == "const" {
+			gv, ok := sp.Members[g.Name].(*ssa.Global)
+			if !ok {
+				panic(fmt.Sprintf("spec error: global %s.%s not found", g.Pkg, g.Name))
+			}
+			a := &Addr{Kind: aGlobal, Glob: gv, Base: gv.Type().(*types.Pointer).Elem()}
+			st.assume(eq(e.load(st, a), e.constInit(g)))
+			e.Assumed[fmt.Sprintf("global %s.%s holds its constant initial value (checked: no write outside init)", sp.Pkg.Name(), g.Name)] = true
+			continue
+		}
+		if g.Kind != "maplit" {
 			continue
 		}
 		gv, ok := sp.Members[g.Name].(*ssa.Global)
@@ -102,6 +112,45 @@ func (e *Engine) mapLiteral(g *GlobalSpec) (keys, vals []string) {
 	panic("spec error: global " + g.Name + " declaration not found")
 }
 
+// constInit reads the constant initialiser of a package-level variable.
+func (e *Engine) constInit(g *GlobalSpec) string {
+	for _, p := range e.Pkgs {
+		if p.PkgPath != g.Pkg {
+			continue
+		}
+		for _, f := range p.Syntax {
+			for _, d := range f.Decls {
+				gd, ok := d.(*ast.GenDecl)
+				if !ok {
+					continue
+				}
+				for _, s := range gd.Specs {
+					vs, ok := s.(*ast.ValueSpec)
+					if !ok {
+						continue
+					}
+					for i, n := range vs.Names {
+						if n.Name != g.Name || i >= len(vs.Values) {
+							continue
+						}
+						tv := p.TypesInfo.Types[vs.Values[i]]
+						if tv.Value == nil {
+							panic("spec error: global " + g.Name + " has a non-constant initialiser")
+						}
+						t := p.TypesInfo.Defs[n].Type()
+						if isFloat(t) {
+							f, _ := constant.Float64Val(tv.Value)
+							return fpConst(f)
+						}
+						return e.constTerm(t, tv.Value)
+					}
+				}
+			}
+		}
+	}
+	panic("spec error: global " + g.Name + " declaration not found")
+}
+
 func (e *Engine) constTerm(t types.Type, v constant.Value) string {
 	switch {
 	case isString(t):
@@ -155,7 +204,7 @@ func (e *Engine) globalReadonly(prop string) {
 							writes = append(writes, e.posOf(in.Pos()))
 						}
 						// the map escaping as an argument is a potential write
-						if _, isB := c.Value.(*ssa.Builtin); !isB {
+						if _, isB := c.Value.(*ssa.Builtin); !isB && g.Kind == "maplit" {
 							for _, a := range c.Args {
 								if isLoadOf(a, gv) {
 									writes = append(writes, "escapes at "+e.posOf(in.Pos()))
